@@ -58,8 +58,14 @@ func runSegStress(cfgJSON string, res *vlib.Result) {
 	}
 	defer tf.Close()
 	log := &evLog{enc: json.NewEncoder(tf)}
+	var pauseCtr atomic.Uint64
 	storage.VerifSegmentTracer = func(event, location string) {
 		log.emit(map[string]any{"event": event, "seg": filepath.Base(location)})
+		if event == "SnapClosedBegin" {
+			// schedule perturbation: the hard-link of a tiny directory takes microseconds, real segments take long
+			n := pauseCtr.Add(0x9E3779B97F4A7C15)
+			time.Sleep(time.Duration((n>>40)%600) * time.Microsecond)
+		}
 	}
 	defer func() { storage.VerifSegmentTracer = nil }()
 	origin := time.Date(2026, 5, 10, 0, 0, 0, 0, time.Local)
